@@ -10,6 +10,11 @@
  *   mod <t> restrict <cpuset> | insertmisc | insertgroup | allow | distadd <typename> <n> | distremove
  *              | maregister | maset <a> <numa-logical-index> | refresh
  *   cons <t> traverse|typeprint|distget|distrelease|mameta|maget <q> <a>|localnodes|cpukinds|sets|bitmap|exportxml|exportsynth|defaultnodeset|helpers
+ *   configure <t> synthetic <description...> | xml <path>    set the source only (lifecycle state "configured")
+ *   err <t> <call>        a call made WHATEVER the lifecycle state of the topology (init only / configured / loaded / after a
+ *                         failed load), recorded as rc + errno class: shmemlen, shmemwrite (scratch file, probed address),
+ *                         exportxml, exportxmlbuf, exportsynth, dup, diffbuild, diffapply, setsynthetic, setxml, setflags,
+ *                         setfilter, setpid, setcomponents, restrict, allow, insertmisc, distadd, distget, refresh
  *   filterall <t>         before load: keep every object type (memory-side caches are filtered out by default)
  *   destroy <t>
  *   env <NAME> [<VALUE>]  setenv / unsetenv (e.g. HWLOC_SYNTHETIC_VERBOSE)
@@ -36,6 +41,10 @@
 #include <errno.h>
 #include <stdint.h>
 #include <limits.h>
+#include <unistd.h>
+#include <fcntl.h>
+#include <sys/mman.h>
+#include "hwloc/shmem.h"
 #include "hwv_dump.h"
 
 #define MAXT 64
@@ -426,6 +435,55 @@ static void run_cmd(char *cmd, struct outcome *out, int verbose)
   }
   t = topos[ti];
   if (!t) return;
+  if (!strcmp(kind, "configure")) {
+    char src[16]; int o2 = 0, rc;
+    if (sscanf(cmd, "%15s %n", src, &o2) < 1 || loaded[ti]) { out->rc = loaded[ti] ? 0 : -2; return; }
+    errno = 0; rc = !strcmp(src, "synthetic") ? hwloc_topology_set_synthetic(t, cmd + o2) : hwloc_topology_set_xml(t, cmd + o2);
+    out->rc = rc == 0; out->digest = fnv_str(FNV0, hwv_errno_name(rc ? errno : 0)); return;
+  }
+  if (!strcmp(kind, "err")) {
+    char what[32] = ""; int rc = -1; sscanf(cmd, "%31s", what); errno = 0;
+    if (!strcmp(what, "shmemlen")) { size_t len = 0; rc = hwloc_shmem_topology_get_length(t, &len, 0); }
+    else if (!strcmp(what, "shmemwrite")) {
+      /* The target address range is a process-wide resource the APPLICATION has to coordinate: the harness serialises
+       * its own probe-and-write sequences, and when another thread's allocation grabs the probed range in between
+       * (EBUSY: mapped elsewhere) it probes again - that is not an interference between topologies. */
+      static pthread_mutex_t shm_lock = PTHREAD_MUTEX_INITIALIZER;
+      size_t len = 8u << 20; char path[64]; int fd, tries; void *addr;
+      snprintf(path, sizeof(path), "/tmp/hwv-mt-shmem-%d-%u", (int)getpid(), ti); fd = open(path, O_CREAT | O_RDWR | O_TRUNC, 0600);
+      pthread_mutex_lock(&shm_lock);
+      for (tries = 0; tries < 8; tries++) {
+        addr = mmap(NULL, len, PROT_NONE, MAP_PRIVATE | MAP_ANONYMOUS, -1, 0);       /* probe a free range, then give it back */
+        if (fd < 0 || addr == MAP_FAILED) break;
+        munmap(addr, len); errno = 0;
+        rc = hwloc_shmem_topology_write(t, fd, 0, addr, len, 0);
+        if (!(rc < 0 && errno == EBUSY)) break;
+      }
+      { int e = errno; pthread_mutex_unlock(&shm_lock); if (fd >= 0) { close(fd); unlink(path); } errno = e; }
+    }
+    else if (!strcmp(what, "exportxml")) { char path[64]; snprintf(path, sizeof(path), "/tmp/hwv-mt-x-%d-%u.xml", (int)getpid(), ti); rc = hwloc_topology_export_xml(t, path, 0); { int e = errno; unlink(path); errno = e; } }
+    else if (!strcmp(what, "exportxmlbuf")) { char *b = NULL; int l = 0; rc = hwloc_topology_export_xmlbuffer(t, &b, &l, 0); if (!rc) hwloc_free_xmlbuffer(t, b); }
+    else if (!strcmp(what, "exportsynth")) { char b[1024]; rc = hwloc_topology_export_synthetic(t, b, sizeof(b), 0); if (rc > 0) rc = 0; }
+    else if (!strcmp(what, "dup")) { hwloc_topology_t n = NULL; rc = hwloc_topology_dup(&n, t); if (!rc) hwloc_topology_destroy(n); }
+    else if (!strcmp(what, "diffbuild")) { hwloc_topology_diff_t d = NULL; rc = hwloc_topology_diff_build(t, t, 0, &d); if (rc >= 0) { hwloc_topology_diff_destroy(d); rc = 0; } }
+    else if (!strcmp(what, "diffapply")) { rc = hwloc_topology_diff_apply(t, NULL, 0); }
+    else if (!strcmp(what, "setsynthetic")) { if (!loaded[ti]) { out->rc = 0; out->digest = fnv_str(FNV0, "skipped-would-reconfigure"); return; } rc = hwloc_topology_set_synthetic(t, "pu:2"); }
+    else if (!strcmp(what, "setxml")) { if (!loaded[ti]) { out->rc = 0; out->digest = fnv_str(FNV0, "skipped-would-reconfigure"); return; } rc = hwloc_topology_set_xml(t, "/nonexistent/file.xml"); }
+    else if (!strcmp(what, "setflags")) { if (!loaded[ti]) { out->rc = 0; out->digest = fnv_str(FNV0, "skipped-would-reconfigure"); return; } rc = hwloc_topology_set_flags(t, 0); }
+    else if (!strcmp(what, "setfilter")) { if (!loaded[ti]) { out->rc = 0; out->digest = fnv_str(FNV0, "skipped-would-reconfigure"); return; } rc = hwloc_topology_set_all_types_filter(t, HWLOC_TYPE_FILTER_KEEP_ALL); }
+    else if (!strcmp(what, "setpid")) { if (!loaded[ti]) { out->rc = 0; out->digest = fnv_str(FNV0, "skipped-would-reconfigure"); return; } rc = hwloc_topology_set_pid(t, getpid()); }
+    else if (!strcmp(what, "setcomponents")) { if (!loaded[ti]) { out->rc = 0; out->digest = fnv_str(FNV0, "skipped-would-reconfigure"); return; } rc = hwloc_topology_set_components(t, HWLOC_TOPOLOGY_COMPONENTS_FLAG_BLACKLIST, "x86"); }
+    else if (!strcmp(what, "restrict")) { hwloc_bitmap_t s = hwloc_bitmap_alloc(); hwloc_bitmap_set(s, 0); if (loaded[ti]) { hwloc_bitmap_free(s); out->rc = 0; out->digest = fnv_str(FNV0, "skipped-would-modify"); return; } rc = hwloc_topology_restrict(t, s, 0); { int e = errno; hwloc_bitmap_free(s); errno = e; } }
+    else if (!strcmp(what, "allow")) { if (loaded[ti]) { out->rc = 0; out->digest = fnv_str(FNV0, "skipped-would-modify"); return; } rc = hwloc_topology_allow(t, NULL, NULL, HWLOC_ALLOW_FLAG_ALL); }
+    else if (!strcmp(what, "insertmisc")) { if (loaded[ti]) { out->rc = 0; out->digest = fnv_str(FNV0, "skipped-would-modify"); return; } rc = hwloc_topology_insert_misc_object(t, hwloc_get_root_obj(t), "x") ? 0 : -1; }
+    else if (!strcmp(what, "distadd")) { if (loaded[ti]) { out->rc = 0; out->digest = fnv_str(FNV0, "skipped-would-modify"); return; } rc = hwloc_distances_add_create(t, NULL, HWLOC_DISTANCES_KIND_FROM_USER | HWLOC_DISTANCES_KIND_VALUE_LATENCY, 0) ? 0 : -1; }
+    else if (!strcmp(what, "distget")) { struct hwloc_distances_s *ds[4]; unsigned nr = 4, i; rc = hwloc_distances_get(t, &nr, ds, 0, 0); if (!rc) for (i = 0; i < nr && i < 4; i++) hwloc_distances_release(t, ds[i]); }
+    else if (!strcmp(what, "refresh")) { rc = hwloc_topology_refresh(t); }
+    else { out->rc = -2; return; }
+    out->rc = rc == 0; out->digest = fnv_str(fnv_str(FNV0, what), hwv_errno_name(rc ? errno : 0));
+    if (verbose) printf(" errno=%s", hwv_errno_name(rc ? errno : 0));
+    return;
+  }
   if (!strcmp(kind, "blacklist")) { errno = 0; out->rc = hwloc_topology_set_components(t, HWLOC_TOPOLOGY_COMPONENTS_FLAG_BLACKLIST, cmd) == 0; out->digest = fnv_str(FNV0, hwv_errno_name(out->rc ? 0 : errno)); return; }
   if (!strcmp(kind, "exportfile")) { out->rc = hwloc_topology_export_xml(t, cmd, 0) == 0; return; }
   if (!strcmp(kind, "filterall")) { out->rc = hwloc_topology_set_all_types_filter(t, HWLOC_TYPE_FILTER_KEEP_ALL) == 0; return; }
